@@ -9,6 +9,21 @@ def esc(s):
     return s.replace('\\', '\\\\').replace('\n', '\\n').replace('\t', '\\t')
 
 
+def unesc(s):
+    out = []
+    i = 0
+    while i < len(s):
+        c = s[i]
+        if c == '\\' and i + 1 < len(s):
+            d = s[i + 1]
+            out.append({'n': '\n', 't': '\t', '\\': '\\'}.get(d, '\\' + d))
+            i += 2
+        else:
+            out.append(c)
+            i += 1
+    return ''.join(out)
+
+
 class Scenario:
     def __init__(self, name='s', strategy='ident', hist=None, present=(), classes=None, inputs=None, nodes=(),
                  edges=(), events=()):
